@@ -22,6 +22,9 @@ type Item struct {
 	// Edge: an "edge function": it calls the edge functions its module imports (so that every
 	// import edge of the graph is exercised at run time) and then reads every other visible name.
 	Edge bool `json:"e,omitempty"`
+	// Maker: a "maker function" `pub fn mk_<module>() -> fn() -> str`: it returns a function value
+	// made in its own module (see Graph.Callback "made"); its importers call what it returns.
+	Maker bool `json:"mk,omitempty"`
 }
 
 // ImpItem is one name of an import statement.
@@ -101,7 +104,17 @@ type Graph struct {
 	// module's k, "relay" the function it received (so the entry's k travels down the import
 	// chain). The callback runs against the globals of the module that defines it, and the function
 	// that called it (and caught what it threw) goes on against its own.
+	// "made": the values travel the other way: every module has a pub maker function `mk_<module>`
+	// that returns a function value for its private k; every edge function calls what the maker of its
+	// own module and the makers it imports return (a value made in an imported module is called from
+	// the importing one), then goes on reading its own names.
 	Callback string `json:"callback,omitempty"`
+	// CbForm: what the function values of a Callback graph are: "" the named function k itself, "lit"
+	// a function literal `fn() -> str { k() }` written where the value is made (a closure value: its
+	// body belongs to the module whose source text contains it, so the k it calls is that module's).
+	// (A literal that reads a local of the function creating it is left out: the VM does not implement
+	// captured variables - open finding KF-vm-closure-capture of C01/C02/C04, not a matter of modules.)
+	CbForm string `json:"cb_form,omitempty"`
 	// Family names the enumerator that produced the graph (evidence only).
 	Family string `json:"family,omitempty"`
 }
@@ -171,16 +184,34 @@ func (g *Graph) caught(call string) string {
 	return call
 }
 
+// handsDown: function values are handed down as arguments of the edge functions.
+func (g *Graph) handsDown() bool { return g.Callback == "own" || g.Callback == "relay" }
+
+// makerName is the name of the maker function of module mod.
+func makerName(mod string) string { return "mk_" + ident(mod) }
+
+// fnValue is the expression that makes a function value for the module's k.
+func (g *Graph) fnValue() string {
+	if g.CbForm == "lit" {
+		if g.Exit == "return" {
+			// (the literal hands on the result the way every function of the graph does)
+			return "fn() -> str { return " + cbName + "(); }"
+		}
+		return "fn() -> str { " + cbName + "() }"
+	}
+	return cbName
+}
+
 // cbArg is the argument list of a call of function target from inside function from (nil: from
 // the entry's main function).
 func (g *Graph) cbArg(target Item, from *Item) string {
-	if g.Callback == "" || !target.Edge {
+	if !g.handsDown() || !target.Edge {
 		return ""
 	}
 	if g.Callback == "relay" && from != nil && from.Edge {
 		return "cb"
 	}
-	return cbName
+	return g.fnValue()
 }
 
 func (m *Mod) edgeFn() *Item {
@@ -275,6 +306,16 @@ func Render(g *Graph, lk *Link) Rendered {
 			if it.Pub {
 				pub = "pub "
 			}
+			if it.Maker {
+				emit(fmt.Sprintf("%sfn %s() -> fn() -> str {", pub, it.Name))
+				if g.Exit == "return" {
+					emit("    return " + g.fnValue() + ";")
+				} else {
+					emit("    " + g.fnValue())
+				}
+				emit("}")
+				continue
+			}
 			sings := m.sings()
 			direct := g.SingDirect || g.isCallback(it)
 			var params []string
@@ -283,7 +324,7 @@ func Render(g *Graph, lk *Link) Rendered {
 					params = append(params, fmt.Sprintf("p_%s: $%s", s.Name, s.Name))
 				}
 			}
-			if g.Callback != "" && it.Edge {
+			if g.handsDown() && it.Edge {
 				params = append(params, "cb: fn() -> str")
 			}
 			emit(fmt.Sprintf("%sfn %s(%s) -> str {", pub, it.Name, strings.Join(params, ", ")))
@@ -297,6 +338,19 @@ func Render(g *Graph, lk *Link) Rendered {
 			var parts []string
 			for i, r := range lk.refs(g, m.Name, it) {
 				q := fmt.Sprintf("q_%s_%d", it.Name, i)
+				switch {
+				case r.Item.Maker:
+					// the function value a maker returns is called here, in the module of this function
+					callee := r.Item.Name
+					if g.ViaValue {
+						emit(fmt.Sprintf("    let m%s = %s;", q, callee))
+						callee = "m" + q
+					}
+					emit(fmt.Sprintf("    let h%s = %s();", q, callee))
+					emit(fmt.Sprintf("    let %s = %s;", q, g.caught("h"+q+"()")))
+					parts = append(parts, q)
+					continue
+				}
 				switch r.Item.Kind {
 				case "fn", "cb":
 					// (a ref of kind cb is the call of the function value the edge function received)
@@ -445,6 +499,11 @@ func Describe(g *Graph) string {
 		parts = append(parts, "(every edge function is handed the private function k of its caller's module and calls it)")
 	case "relay":
 		parts = append(parts, "(the entry's private function k is handed down through all edge functions, each calls it)")
+	case "made":
+		parts = append(parts, "(every module has a pub maker function returning a function value for its private function k; every edge function calls what its own and the imported makers return)")
+	}
+	if g.CbForm == "lit" {
+		parts = append(parts, "(the function values are function literals `fn() -> str { k() }`)")
 	}
 	return strings.Join(parts, "  ")
 }
